@@ -4,7 +4,7 @@ import glob, json, os, re, sys
 HERE = os.path.dirname(os.path.dirname(os.path.abspath(__file__)))
 rows = {}
 for line in open(sys.argv[1]):
-    m = re.match(r"^(caught|MISSED|HARNESS\S*|PATCH\S*)\s+(\S+)\s+([\d.]+)s\s*(.*)$", line.rstrip())
+    m = re.match(r"^(caught|MISSED|not-caught\(documented\)|HARNESS\S*|PATCH\S*)\s+(\S+)\s+([\d.]+)s\s*(.*)$", line.rstrip())
     if m:
         rows[m.group(2)] = (m.group(1), m.group(4))
 def cls(detail):
